@@ -217,3 +217,55 @@ func VerifC01Parser() {
 	verifCover(len(want) == 0, "parser.all-dropped")
 	verifReach("parser.done")
 }
+
+// VerifC10Bookkeeping (C10, last clause): whatever key/slot filter section the configuration
+// carries - none at all, an empty one, a prefix whitelist, a slot whitelist - the output built by
+// the real NewRedisOutput never forwards a command's key under one of the tool's bookkeeping
+// prefixes (incremental stream) and filters such a key of a snapshot.
+func VerifC10Bookkeeping() {
+	cfg := RedisOutputConfig{InputName: "in", CheckpointName: "cp", RunId: "rid1", TargetDb: -1}
+	switch verifChoose("filterSection", 4) {
+	case 1:
+		cfg.Filter.KeyFilter = &config.FilterKeyConfig{}
+	case 2:
+		cfg.Filter.KeyFilter = &config.FilterKeyConfig{PrefixKeyWhitelist: []string{"user", config.CheckpointKey}}
+	case 3:
+		cfg.Filter.SlotFilter = &config.FilterSlotConfig{KeySlotWhitelist: [][]uint16{{0, 16383}}}
+	}
+	ro := NewRedisOutput(cfg)
+	pfx := []string{config.CheckpointKey, config.NamespacePrefixKey}[verifChoose("bkkey", 2)]
+	bk := append([]byte(pfx), verifBytes("sfx", 2)...)
+	verifAssert(ro.outFilter.FilterKey(string(bk)), "C10.bookkeeping-key-of-snapshot-forwarded")
+
+	user := append([]byte("user"), verifBytes("ukey", 1)...)
+	var stream []byte
+	kind := verifChoose("cmd", 3)
+	switch kind {
+	case 0:
+		stream = verifResp([]byte("SET"), bk, []byte("v"))
+	case 1:
+		stream = verifResp([]byte("HSET"), bk, []byte("f"), []byte("v"))
+	default:
+		stream = verifResp([]byte("DEL"), user, bk)
+	}
+	sendBuf := make(chan cmdExecution, 4)
+	rw := usync.NewWaitCloser(nil)
+	_ = ro.parseAofCommand(rw, bufio.NewReaderSize(bytes.NewReader(stream), 16), 1000, sendBuf)
+	rw.Close(nil)
+	close(sendBuf)
+	n := 0
+	for it := range sendBuf {
+		n++
+		for _, a := range it.Args {
+			if b, ok := a.([]byte); ok {
+				verifAssert(!bytes.HasPrefix(b, []byte(pfx)), "C10.bookkeeping-key-forwarded")
+			}
+		}
+	}
+	if kind == 2 {
+		verifAssert(n == 1, "C10.user-key-dropped-with-bookkeeping-key")
+	} else {
+		verifAssert(n == 0, "C10.bookkeeping-key-forwarded")
+	}
+	verifReach("c10.bookkeeping.done")
+}
